@@ -49,6 +49,13 @@ Theorem C03_term_last_partial : forall n ops s es k c l1 st l2,
   recv k c (concat es) = l1 ++ Term st :: l2 -> l2 = [].
 Proof. exact term_last. Qed.
 
+(* the same under producer discipline on a FilterTokenPort (termination tokens always pass the filter) *)
+Theorem C03_term_last_filter_partial : forall acc n ops s es c l1 st l2,
+  run (init (KFilter acc) n) ops = (s, es) -> 0 < n ->
+  (forall a b t, puts 0 ops = a ++ t :: b -> is_term t = true -> b = []) ->
+  recv 0 c (concat es) = l1 ++ Term st :: l2 -> l2 = [].
+Proof. exact term_last_filter. Qed.
+
 Theorem C03_inter_term_then_token_refuted :
   exists ops s es,
     run (init KInter 2) ops = (s, es) /\
@@ -153,6 +160,7 @@ Print Assumptions C03_plain.
 Print Assumptions C03_filter.
 Print Assumptions C03_after_term_partial.
 Print Assumptions C03_term_last_partial.
+Print Assumptions C03_term_last_filter_partial.
 Print Assumptions C03_inter_term_then_token_refuted.
 Print Assumptions C03_boundary_history.
 Print Assumptions C03_boundary_put.
